@@ -420,8 +420,12 @@ def run_operators(tier, seed):
                     for rep in range(2 if tier == "quick" else 5):
                         a_rv = gen.vec4(r, core=True, causal="timelike", forward=True)[0] if dim == 4 else gen.vec(r, dim, core=True)[0]
                         b_rv = gen.vec4(r, core=True, causal="timelike", forward=True)[0] if dim == 4 else gen.vec(r, dim, core=True)[0]
-                        if fname in ("v-w", "v-=w", "-v") and dim == 4 and (s_self[2] == "tau" or s_other[2] == "tau"):
-                            continue  # negative times are not representable in tau storage
+                        if dim == 4 and (s_self[2] == "tau" or s_other[2] == "tau"):
+                            if fname == "-v":
+                                continue  # negative times are not representable in tau storage
+                            if fname in ("v-w", "v-=w"):
+                                # a difference that is itself forward timelike: a = b + c with c forward timelike
+                                a_rv = R.RV(*[p_ + q_ for p_, q_ in zip(a_rv.comps(), b_rv.comps())])
                         try:
                             if len(s_o) != len(s_other):
                                 b_rv = R.project(b_rv, len(s_o) + 1)
